@@ -15,7 +15,7 @@ CHECK = dict(
                  "segments) are not generated"],
     overlay={"quick": "plain", "thorough": "asan"},
     crash_is_violation=True,
-    timeout={"quick": 900, "thorough": 6000},
+    timeout={"quick": 1500, "thorough": 6000},
     technique="runtime monitoring: differential execution of the same program on two back ends, lock-step triage, sanitizers in the thorough tier",
 )
 
